@@ -57,8 +57,9 @@ def run(ctx):
         ctx.evaluations += nf
         c = ctx.coverage.get("counters", {})
         regions = sorted(k for k in c if k.startswith("faults_region_"))
-        ctx.oblige("fault enumeration reached all message kinds (key, tables, input labels, OT both ways, output labels)",
-                   len(regions) >= 6 and nf > 0, "regions: %s" % regions)
+        ctx.oblige("fault enumeration reached all message kinds of whole-circuit sessions (key, tables, input labels, OT both "
+                   "ways, output labels) and both directions + output labels of streaming sessions",
+                   len(regions) >= 9 and nf > 0, "regions: %s" % regions)
         ctx.coverage["exhaustive"] = not quick
         if ctx.broken and not ctx.fails:
             for s in range(ctx.seed + 7000, ctx.seed + 7003):
@@ -73,8 +74,8 @@ def run(ctx):
     ctx.assumptions += [
         "authenticity of the garbling scheme under corruption (no transit corruption makes the evaluator produce label xor r) "
         "is cryptographic and not a Lean theorem; it is covered by fault enumeration on the real code",
-        "streaming sessions are not yet part of the fault enumeration (the streaming result loop is covered by the "
-        "structural fact and the shared decision-logic theorem)",
+        "streaming sessions take part in the fault enumeration (2-3 small programs, CO on the wire); their session key comes "
+        "from crypto/rand, so positions are reproducible but not the bytes",
     ]
     return ctx.finish(
         "Theorems: if the garbler's result loop succeeds on ARBITRARY received labels, each is one of the wire's two labels and "
